@@ -10,7 +10,7 @@ import (
 	"verif/harness/spec"
 )
 
-var c19Patterns = []string{"silent", "traffic-then-silent", "ping", "publish-only", "trickle", "silent-mid-packet", "silent-after-header-byte", "uneven", "large-then-ping", "silent-receiving"}
+var c19Patterns = []string{"silent", "traffic-then-silent", "ping", "publish-only", "trickle", "silent-mid-packet", "silent-after-header-byte", "uneven", "large-then-ping", "silent-receiving", "silent-successor"}
 var c19Fractions = []float64{0.25, 0.5, 0.9, 0.99}
 
 func c19Run(t *testing.T, K int, pattern string, frac float64, idx int) {
@@ -29,7 +29,7 @@ func c19Run(t *testing.T, K int, pattern string, frac float64, idx int) {
 			return
 		}
 		willUID := uint64(4242)
-		c, ack := w.connectB("subject", connectOpts{Clean: true, KeepAlive: uint16(K),
+		c, ack := w.connectB("subject", connectOpts{Clean: pattern != "silent-successor", KeepAlive: uint16(K),
 			Will: &rc.Packet{Topic: []byte("will/ka"), QoS: 1, Payload: spec.MakePayload(willUID, 0, 40)}})
 		if ack == nil || ack.ReturnCode != 0 {
 			fail("c19:connect", "no CONNACK for the subject")
@@ -146,6 +146,14 @@ func c19Run(t *testing.T, K int, pattern string, frac float64, idx int) {
 				return
 			}
 		}
+		// "silent-successor": the device has given the connection up without closing it and comes
+		// back on a new connection (same client identifier, CleanSession=0, a will of its own or none)
+		// half a keep-alive interval into the silence, and is active there. The silent connection is
+		// still to be dropped on time as a failed one - its will, not the successor's - and the active
+		// successor is not to be touched.
+		var succ *bclient
+		succUID := uint64(4343)
+		succPings, succWill := 0, int(frac*100)%2 == 0
 		// ---- silent phase: must be dropped after more than K and by 2K, as an abnormal end
 		step := kd / 20
 		var droppedAfter time.Duration = -1
@@ -154,6 +162,26 @@ func c19Run(t *testing.T, K int, pattern string, frac float64, idx int) {
 			if c.Closed() {
 				droppedAfter = time.Since(lastByte)
 				break
+			}
+			if pattern == "silent-successor" && succ == nil && el >= kd/2 {
+				o := connectOpts{ClientID: "subject", Clean: false, KeepAlive: uint16(K)}
+				if succWill {
+					o.Will = &rc.Packet{Topic: []byte("will/ka"), QoS: 1, Payload: spec.MakePayload(succUID, 0, 40)}
+				}
+				var sa *rc.Packet
+				if succ, sa = w.connectB("successor", o); sa == nil || sa.ReturnCode != 0 {
+					fail("c19:connect", "successor")
+					return
+				}
+			}
+			if succ != nil && el >= kd/2+time.Duration(succPings+1)*interval {
+				if succ.Closed() {
+					fail("c19:active-dropped", fmt.Sprintf("the successor connection, sending a PINGREQ every %v (keep-alive %ds), was disconnected", interval, K))
+					return
+				}
+				succPings++
+				succ.SendPacket(&rc.Packet{Type: rc.PINGREQ})
+				settle()
 			}
 			if feeder != nil && el >= time.Duration(fed+1)*interval {
 				fed++
@@ -186,6 +214,21 @@ func c19Run(t *testing.T, K int, pattern string, frac float64, idx int) {
 			if d.uid == willUID && d.ok {
 				wills++
 			}
+			if d.uid == succUID {
+				fail("c19:will-while-active", "the witness received the will of the successor connection, which is active")
+				return
+			}
+		}
+		if succ != nil {
+			if succ.Closed() {
+				fail("c19:active-dropped", "the active successor connection was closed when the silent one was dropped")
+				return
+			}
+			if got := countType(succ.fresh(), rc.PINGRESP); got != succPings {
+				fail("c19:pingresp", fmt.Sprintf("successor: %d PINGREQ sent, %d PINGRESP received", succPings, got))
+				return
+			}
+			out.Count("c19.successor_runs", 1)
 		}
 		if wills != 1 {
 			fail("c19:will-on-expiry", fmt.Sprintf("keep-alive expiry is an abnormal end: the witness received the will %d times", wills))
